@@ -27,7 +27,7 @@ LEVEL = {"C14": "exploration", "C15": "fault_enumeration"}
 PLAN = {
     "C14": {"quick": {"runs": 60000, "wall_cap": 110, "chunk": 200, "selftest": 8},
             "thorough": {"runs": 2000000, "wall_cap": 1700, "chunk": 500, "selftest": 40}},
-    "C15": {"quick": {"runs": 2000, "wall_cap": 110, "chunk": 8, "selftest": 4},
+    "C15": {"quick": {"runs": 3000, "wall_cap": 110, "chunk": 8, "selftest": 4},
             "thorough": {"runs": 20000, "wall_cap": 1700, "chunk": 10, "selftest": 16}},
 }
 RULE = {
